@@ -12,7 +12,7 @@
    packet numbers and counters are `Z` (int64; QUIC packet numbers are < 2^62 and ring lengths are
    < 2^31, so the int64 sums/differences of the queue cannot wrap and are written in Z);
    roundTripCount is uint64 and its subtraction wraps, written explicitly (`sub64`). *)
-From Hy Require Export lib.Res.
+From Hy Require Export lib.Res gen.ParamsC12.
 From Coq Require Import ZArith Bool.
 Local Open Scope Z_scope.
 
@@ -94,7 +94,7 @@ Arguments rb_front {T}. Arguments rb_back {T}. Arguments rb_get {T}. Arguments r
 Arguments rb_clear {T}.
 
 (* ------------------------------------------------------------------ packetNumberIndexedQueue[T] *)
-Definition invalidPacketNumber : Z := -1.
+Definition invalidPacketNumber : Z := c12_invalidPacketNumber.   (* -1 *)
 
 Section PQ.
 Variable T : Type.
